@@ -1,15 +1,17 @@
 """C15 - frequency sketches err on one side only."""
-FUNCTIONS = ['cms_hash', 'CountMinSketch._add', 'CountMinSketch.query', 'lemma_cms_add_preserves', 'lemma_cms_query_bounds',
+FUNCTIONS = ['cms_hash', 'CountMinSketch._add', 'CountMinSketch.add', 'CountMinSketch.batch_add', 'CountMinSketch.query', 'lemma_cms_add_preserves', 'lemma_cms_query_bounds',
              'PrimitiveConstrainedCounter.add']
 LEVEL = 'proof'
 EXPLANATION = ('contracts of cms_hash, CountMinSketch._add (loop invariant: rows < i updated at the hashed cell, rows >= i '
                'untouched) and query (row-wise minimum) proved against the real bodies; the class invariant (every cell >= 0, '
                'every row sums to the total weight, M[r][h_r(y)] >= weight(y)) is carried by two lemma functions over those '
-               'contracts (add preserves it; query is between the true weight and the total).  PrimitiveConstrainedCounter.add '
+               'contracts (add preserves it; query is between the true weight and the total); the public add and batch_add of the real class are '
+               'proved to re-establish that invariant for weight + delta at x, and for weight + delta * (occurrences in the batch) (loop invariant '
+               'over the batch, the callee\'s ghost history supplied as ghost arguments).  PrimitiveConstrainedCounter.add '
                'is proved against a ghost history (true counts, distinct seen, refused)')
 ASSUMPTIONS = ['python/numba hash(x) is an uninterpreted deterministic function; np.uint32 wraps modulo 2^32',
                'int32 cells do not overflow: pre-condition total + delta < 2^31 (the class never checks it)',
-               'CountMinSketch.add/batch_add forward to _add item by item (2-line wrappers, not under contract)',
+               'the ghost history (weight of every item, total weight) is passed to callee contracts as ghost arguments; batch weights are the linear recursions wcnt / wtot (delta * count written without multiplication)',
                'PrimitiveConstrainedCounter.batch_add is outside the statement ("fed item by item")']
 TRUSTED = ['hash', 'numpy.uint32', 'min over a generator', 'collections.Counter (default 0, len = number of keys)',
            'numba njit (compiler)']
